@@ -282,7 +282,8 @@ def check(spec):
         what = f"source divisions {short(ddf.divisions, 100)} -> {' -> '.join(applied)}"
         # sig: the last step, and (if any) the first step at which optimize() changes the reported divisions - the
         # common root of most failures (the frame reports divisions that the executed expression does not have)
-        sig = dict(op=applied[-1], prev=applied[-2] if len(applied) > 1 else "source", divisions_differ_after_optimize=diverged, diverged_on=diverged_on, concat0_before_divergence=concat0_before)
+        sig = dict(op=applied[-1], prev=applied[-2] if len(applied) > 1 else "source", divisions_differ_after_optimize=diverged, diverged_on=diverged_on, concat0_before_divergence=concat0_before,
+                   concat1_then_more="concat1" in applied[:-1])
         known = C.divisions_known(cur.divisions)
         if not known:
             # C41 speaks about frames that report known divisions ((nan, nan) of an empty set_index counts as unknown)
